@@ -1,6 +1,7 @@
 package props
 
 import (
+	"go/types"
 	"strings"
 
 	"verif/checker/internal/an"
@@ -142,6 +143,80 @@ func c19(c *Ctx) {
 			// already reported per source
 		} else {
 			r.Hold("R19.S", "crypto-origin:"+s.name, s.pos, "")
+		}
+	}
+
+	// R19.O: a buffer filled from crypto/rand is not written again before it is used as the secret
+	r.Rule("R19.O", "the byte buffers that hold a secret are written by crypto/rand only: no element store, copy or other writer touches them between the read of the random source and their use", 2)
+	for _, t := range []struct{ pkg, fn, key string }{{load.SrpPkg, "GetInputCheckPassword", "srp_ephemeral"}, {load.TLPkg, "cryptoRandomBytes", "nonce-bytes"}} {
+		f := c.P.Func(t.pkg, "", t.fn)
+		if f == nil {
+			r.Undecide("R19.O", "only-writer:"+t.key, "", t.fn+" not found")
+			continue
+		}
+		n := 0
+		for _, b := range f.Blocks {
+			for _, in := range b.Instrs {
+				var ms ssa.Value
+				switch x := in.(type) {
+				case *ssa.MakeSlice:
+					if strings.Contains(x.Type().String(), "byte") {
+						ms = x
+					}
+				case *ssa.Alloc: // make([]byte, constant) is an array allocation that is sliced
+					if at, isArr := x.Type().Underlying().(*types.Pointer).Elem().Underlying().(*types.Array); isArr && strings.Contains(at.Elem().String(), "byte") || isArr && at.Elem().String() == "uint8" {
+						ms = x
+					}
+				}
+				if ms == nil {
+					continue
+				}
+				n++
+				var bad []string
+				seen := map[ssa.Value]bool{}
+				var walk func(v ssa.Value)
+				walk = func(v ssa.Value) {
+					if seen[v] || v.Referrers() == nil {
+						return
+					}
+					seen[v] = true
+					for _, rf := range *v.Referrers() {
+						switch x := rf.(type) {
+						case *ssa.Slice:
+							walk(x)
+						case *ssa.IndexAddr:
+							for _, r2 := range *x.Referrers() {
+								if st, isSt := r2.(*ssa.Store); isSt && st.Addr == ssa.Value(x) {
+									bad = append(bad, "element store at "+c.pos(st.Pos()))
+								}
+							}
+						case *ssa.Call:
+							name := an.CalleeName(x.Common())
+							switch {
+							case name == "crypto/rand.Read", name == "io.ReadFull":
+							case name == "builtin:copy":
+								if len(x.Call.Args) == 2 && x.Call.Args[0] == v {
+									bad = append(bad, "copy into the buffer at "+c.pos(x.Pos()))
+								}
+							case name == "builtin:len", name == "builtin:cap":
+							default:
+								if g := an.StaticCallee(x.Common()); g != nil && len(g.Blocks) > 0 {
+									for i, a := range x.Call.Args {
+										if a == v && an.WritesParam(g, i) {
+											bad = append(bad, "written by "+shortCallee(name)+" at "+c.pos(x.Pos()))
+										}
+									}
+								}
+							}
+						}
+					}
+				}
+				walk(ms)
+				r.Check(len(bad) == 0, "R19.O", sprintf("only-writer:%s#%d", t.key, n), c.pos(ms.Pos()), "writers of the secret's buffer other than the random source: "+strings.Join(bad, "; "))
+			}
+		}
+		if n == 0 {
+			r.Undecide("R19.O", "only-writer:"+t.key, c.pos(f.Pos()), "no byte buffer allocated in "+t.fn)
 		}
 	}
 
